@@ -189,15 +189,23 @@ inline void emit_record(bool ok, const std::string& cls, const std::string& det,
         o += "]";
         if (s.h->concurrent) {
             size_t n; const uint8_t* d = rt_decisions(&n);
-            o += ",\"ndec\":" + std::to_string(n) + ",\"choices\":[";
-            bool first = true;
-            for (size_t i = 0; i < n; ++i)
-                if (d[i]) {
-                    if (!first) o += ',';
-                    first = false;
-                    o += '[' + std::to_string(i) + ',' + std::to_string(unsigned(d[i])) + ']';
-                }
-            o += "]";
+            size_t nz = 0;
+            for (size_t i = 0; i < n; ++i) nz += d[i] != 0;
+            o += ",\"ndec\":" + std::to_string(n);
+            if (nz > 200000) {
+                // (a livelock / step-bound run: the list is huge; such a run is replayed from its decision seed)
+                o += ",\"choices_omitted\":" + std::to_string(nz);
+            } else {
+                o += ",\"choices\":[";
+                bool first = true;
+                for (size_t i = 0; i < n; ++i)
+                    if (d[i]) {
+                        if (!first) o += ',';
+                        first = false;
+                        o += '[' + std::to_string(i) + ',' + std::to_string(unsigned(d[i])) + ']';
+                    }
+                o += "]";
+            }
         }
     }
     o += "}\n";
